@@ -172,4 +172,536 @@ theorem VInv.vLiveDesc_clear {vs : List HView} (inv : VInv vs) (pl : PLive vs) {
     obtain ⟨j', c, hc1, hc2, hc3⟩ := live_desc_child inv pl d.anc.length j d rfl hj hd.1 i hd.2
     exact absurd hc3 (inv.no_live_child hi hf hc j' c hc1 hc2)
 
+
+/-! ## transitions on views -/
+
+def isRoot (r : HView) : Prop := r.parent = none ∧ r.anc = [] ∧ r.borrowCount = 0
+
+theorem VInv.append_roots {vs rs : List HView} (inv : VInv vs) (hr : ∀ r ∈ rs, isRoot r) : VInv (vs ++ rs) := by
+  have root_of : ∀ (j : Nat) (d : HView), (vs ++ rs)[j]? = some d → vs[j]? = some d ∨ isRoot d := by
+    intro j d hj
+    rcases getElem?_append_cases hj with h | ⟨_, h⟩
+    · exact Or.inl h
+    · exact Or.inr (hr d (List.mem_of_getElem? h))
+  constructor
+  · intro j d hj hp
+    rcases root_of j d hj with h | h
+    · exact inv.rootAnc j d h hp
+    · exact h.2.1
+  · intro j d hj p hp
+    rcases root_of j d hj with h | h
+    · obtain ⟨ph, h1, h2⟩ := inv.ancOk j d h p hp
+      exact ⟨ph, getElem?_append_of_some h1, h2⟩
+    · rw [h.1] at hp; cases hp
+  · intro j d hj hl p hp
+    rcases root_of j d hj with h | h
+    · obtain ⟨ph, h1, h2⟩ := inv.flagOk j d h hl p hp
+      exact ⟨ph, getElem?_append_of_some h1, h2⟩
+    · rw [h.1] at hp; cases hp
+  · intro j1 j2 d1 d2 p h1 h2 l1 l2 p1 p2
+    rcases root_of j1 d1 h1 with a | a
+    · rcases root_of j2 d2 h2 with b | b
+      · exact inv.uniq j1 j2 d1 d2 p a b l1 l2 p1 p2
+      · rw [b.1] at p2; cases p2
+    · rw [a.1] at p1; cases p1
+  · intro j d hj
+    rcases root_of j d hj with h | h
+    · exact inv.cnt j d h
+    · rw [h.2.2]; exact Int.le_refl 0
+
+theorem PLive.append_roots {vs rs : List HView} (pl : PLive vs) (hr : ∀ r ∈ rs, isRoot r) : PLive (vs ++ rs) := by
+  intro j d hj hl p hp
+  rcases getElem?_append_cases hj with h | ⟨_, h⟩
+  · obtain ⟨ph, h1, h2⟩ := pl j d h hl p hp
+    exact ⟨ph, getElem?_append_of_some h1, h2⟩
+  · have := hr d (List.mem_of_getElem? h)
+    rw [this.1] at hp; cases hp
+
+/-- `release` on views -/
+def vrelease (vs : List HView) (d : HView) : List HView :=
+  match d.parent with
+  | none => vs
+  | some p =>
+    match vs[p]? with
+    | none => vs
+    | some ph =>
+      match d.kind with
+      | .rw => vs.set p { ph with childFlag := false }
+      | .ro => vs.set p { ph with borrowCount := ph.borrowCount - 1 }
+
+theorem release_views (hs : List Handle) (d : Handle) :
+    (release hs d).map Handle.view = vrelease (hs.map Handle.view) d.view := by
+  unfold release vrelease
+  cases hp : d.parent with
+  | none => simp [Handle.view, hp]
+  | some p =>
+    simp only [Handle.view, hp, List.getElem?_map]
+    cases hph : hs[p]? with
+    | none => simp
+    | some ph =>
+      simp only [Option.map_some]
+      cases d.kind <;> simp [List.map_set, Handle.view, Handle.live]
+
+/-- the last copy of handle `i` is dropped -/
+structure KillRel (vs vs2 : List HView) (i : Nat) (h : HView) : Prop where
+  k1 : ∀ (j : Nat) (d : HView), vs2[j]? = some d → ∃ d0, vs[j]? = some d0 ∧ d.parent = d0.parent ∧ d.anc = d0.anc ∧
+    d.kind = d0.kind ∧ (d.live = true → d0.live = true ∧ j ≠ i) ∧
+    (h.parent ≠ some j → d.childFlag = d0.childFlag ∧ d.borrowCount = d0.borrowCount) ∧
+    (h.kind = .rw → d.borrowCount = d0.borrowCount) ∧ (d0.borrowCount - 1 ≤ d.borrowCount)
+  k2 : ∀ (q : Nat) (qh : HView), vs[q]? = some qh → ∃ qh', vs2[q]? = some qh' ∧ qh'.anc = qh.anc ∧
+    (q ≠ i → qh'.live = qh.live) ∧ (h.parent ≠ some q → qh'.childFlag = qh.childFlag ∧ qh'.borrowCount = qh.borrowCount)
+
+theorem killRel {vs : List HView} {i : Nat} {h : HView} (hi : vs[i]? = some h) (hd : HView)
+    (e1 : hd.live = false) (e2 : hd.parent = h.parent) (e3 : hd.anc = h.anc) (e4 : hd.kind = h.kind)
+    (e5 : hd.childFlag = h.childFlag) (e6 : hd.borrowCount = h.borrowCount) :
+    KillRel vs (vrelease (vs.set i hd) hd) i h := by
+  -- first the `set`
+  have s1 : ∀ (j : Nat) (d : HView), (vs.set i hd)[j]? = some d →
+      ∃ d0, vs[j]? = some d0 ∧ d.parent = d0.parent ∧ d.anc = d0.anc ∧ d.kind = d0.kind ∧
+        (d.live = true → d0.live = true ∧ j ≠ i) ∧ d.childFlag = d0.childFlag ∧ d.borrowCount = d0.borrowCount := by
+    intro j d hj
+    rcases getElem?_set_cases hj with ⟨rfl, rfl⟩ | ⟨hne, hj'⟩
+    · exact ⟨h, hi, e2, e3, e4, by simp [e1], e5, e6⟩
+    · exact ⟨d, hj', rfl, rfl, rfl, fun hl => ⟨hl, hne⟩, rfl, rfl⟩
+  have s2 : ∀ (q : Nat) (qh : HView), vs[q]? = some qh → ∃ qh', (vs.set i hd)[q]? = some qh' ∧
+      qh'.anc = qh.anc ∧ (q ≠ i → qh'.live = qh.live) ∧ qh'.childFlag = qh.childFlag ∧
+        qh'.borrowCount = qh.borrowCount := by
+    intro q qh hq
+    by_cases hqi : q = i
+    · subst hqi
+      rw [hi] at hq; cases hq
+      exact ⟨_, getElem?_set_self' hi, e3, fun e => absurd rfl e, e5, e6⟩
+    · exact ⟨qh, getElem?_set_ne' hqi hq, rfl, fun _ => rfl, rfl, rfl⟩
+  have plain : KillRel vs (vs.set i hd) i h := by
+    constructor
+    · intro j d hj
+      obtain ⟨d0, a, b, c, e, f, g1, g2⟩ := s1 j d hj
+      exact ⟨d0, a, b, c, e, f, fun _ => ⟨g1, g2⟩, fun _ => g2, (by rw [g2]; omega)⟩
+    · intro q qh hq
+      obtain ⟨qh', a, b, c, g1, g2⟩ := s2 q qh hq
+      exact ⟨qh', a, b, c, fun _ => ⟨g1, g2⟩⟩
+  unfold vrelease
+  split
+  · exact plain
+  · rename_i p hp
+    have hp' : h.parent = some p := e2 ▸ hp
+    split
+    · exact plain
+    · rename_i ph hph
+      constructor
+      · intro j d hj
+        cases hk : hd.kind with
+        | rw =>
+          have hk' : h.kind = .rw := e4 ▸ hk
+          simp only [hk] at hj
+          rcases getElem?_set_cases hj with ⟨rfl, rfl⟩ | ⟨hne, hj'⟩
+          · obtain ⟨d0, a, b, c, e, f, g1, g2⟩ := s1 j ph hph
+            exact ⟨d0, a, b, c, e, f, fun hh => absurd hp' hh, fun _ => g2, (by simp only; rw [g2]; omega)⟩
+          · obtain ⟨d0, a, b, c, e, f, g1, g2⟩ := s1 j d hj'
+            exact ⟨d0, a, b, c, e, f, fun _ => ⟨g1, g2⟩, fun _ => g2, (by rw [g2]; omega)⟩
+        | ro =>
+          have hk' : h.kind = .ro := e4 ▸ hk
+          simp only [hk] at hj
+          rcases getElem?_set_cases hj with ⟨rfl, rfl⟩ | ⟨hne, hj'⟩
+          · obtain ⟨d0, a, b, c, e, f, g1, g2⟩ := s1 j ph hph
+            exact ⟨d0, a, b, c, e, f, fun hh => absurd hp' hh, fun hh => (by rw [hk'] at hh; cases hh),
+              (by simp only; rw [g2]; omega)⟩
+          · obtain ⟨d0, a, b, c, e, f, g1, g2⟩ := s1 j d hj'
+            exact ⟨d0, a, b, c, e, f, fun _ => ⟨g1, g2⟩, fun _ => g2, (by rw [g2]; omega)⟩
+      · intro q qh hq
+        obtain ⟨qh', a, b, c, g1, g2⟩ := s2 q qh hq
+        by_cases hqp : q = p
+        · subst hqp
+          rw [hph] at a; cases a
+          cases hd.kind
+          · exact ⟨_, getElem?_set_self' hph, b, c, fun hh => absurd hp' hh⟩
+          · exact ⟨_, getElem?_set_self' hph, b, c, fun hh => absurd hp' hh⟩
+        · cases hd.kind
+          · exact ⟨qh', getElem?_set_ne' hqp a, b, c, fun _ => ⟨g1, g2⟩⟩
+          · exact ⟨qh', getElem?_set_ne' hqp a, b, c, fun _ => ⟨g1, g2⟩⟩
+
+theorem VInv.kill {vs vs2 : List HView} {i : Nat} {h : HView} (inv : VInv vs) (hi : vs[i]? = some h)
+    (hl : h.live = true) (kr : KillRel vs vs2 i h) : VInv vs2 := by
+  constructor
+  · intro j d hj hp
+    obtain ⟨d0, a, b, c, _⟩ := kr.k1 j d hj
+    rw [c]; exact inv.rootAnc j d0 a (b ▸ hp)
+  · intro j d hj p hp
+    obtain ⟨d0, a, b, c, _⟩ := kr.k1 j d hj
+    obtain ⟨ph, h1, h2⟩ := inv.ancOk j d0 a p (b ▸ hp)
+    obtain ⟨ph', g1, g2, _⟩ := kr.k2 p ph h1
+    exact ⟨ph', g1, by rw [c, h2, g2]⟩
+  · intro j d hj hlv p hp
+    obtain ⟨d0, a, b, c, e, f, _⟩ := kr.k1 j d hj
+    obtain ⟨l0, hne⟩ := f hlv
+    obtain ⟨ph, h1, h2⟩ := inv.flagOk j d0 a l0 p (b ▸ hp)
+    have hnp : h.parent ≠ some p := by
+      intro hh
+      exact hne (inv.uniq j i d0 h p a hi l0 hl (b ▸ hp) hh)
+    obtain ⟨ph', g1, _, _, g4⟩ := kr.k2 p ph h1
+    obtain ⟨g5, g6⟩ := g4 hnp
+    exact ⟨ph', g1, ⟨fun hk => by rw [g5]; exact h2.1 (e ▸ hk), fun hk => by rw [g6]; exact h2.2 (e ▸ hk)⟩⟩
+  · intro j1 j2 d1 d2 p h1 h2 l1 l2 p1 p2
+    obtain ⟨d10, a1, b1, _, _, f1, _⟩ := kr.k1 j1 d1 h1
+    obtain ⟨d20, a2, b2, _, _, f2, _⟩ := kr.k1 j2 d2 h2
+    exact inv.uniq j1 j2 d10 d20 p a1 a2 (f1 l1).1 (f2 l2).1 (b1 ▸ p1) (b2 ▸ p2)
+  · intro j d hj
+    obtain ⟨d0, a, _, _, _, _, g, grw, gle⟩ := kr.k1 j d hj
+    have c0 := inv.cnt j d0 a
+    by_cases hpj : h.parent = some j
+    · cases hk : h.kind with
+      | rw => rw [grw hk]; exact c0
+      | ro =>
+        obtain ⟨ph, h1, h2⟩ := inv.flagOk i h hi hl j hpj
+        rw [a] at h1; cases h1
+        have := h2.2 hk
+        omega
+    · rw [(g hpj).2]; exact c0
+
+theorem PLive.kill {vs vs2 : List HView} {i : Nat} {h : HView} (pl : PLive vs)
+    (hnc : vLiveChild vs i = false) (kr : KillRel vs vs2 i h) : PLive vs2 := by
+  intro j d hj hlv p hp
+  obtain ⟨d0, a, b, _, _, f, _⟩ := kr.k1 j d hj
+  obtain ⟨l0, _⟩ := f hlv
+  obtain ⟨ph, h1, h2⟩ := pl j d0 a l0 p (b ▸ hp)
+  have hpi : p ≠ i := by
+    intro e
+    subst e
+    exact vLiveChild_false hnc j d0 a l0 (b ▸ hp)
+  obtain ⟨ph', g1, _, g3, _⟩ := kr.k2 p ph h1
+  exact ⟨ph', g1, by rw [g3 hpi]; exact h2⟩
+
+/-- a handle is derived from handle `i` -/
+def derivedParent (h : HView) : Kind → HView
+  | .rw => { h with childFlag := true }
+  | .ro => { h with borrowCount := h.borrowCount + 1 }
+
+def derivedChild (h : HView) (i : Nat) (k : Kind) : HView :=
+  { live := true, parent := some i, anc := h.anc ++ [i], kind := k, childFlag := false, borrowCount := 0 }
+
+theorem derivedParent_core (h : HView) (k : Kind) :
+    (derivedParent h k).live = h.live ∧ (derivedParent h k).parent = h.parent ∧ (derivedParent h k).anc = h.anc ∧
+      (derivedParent h k).kind = h.kind := by
+  cases k <;> exact ⟨rfl, rfl, rfl, rfl⟩
+
+theorem derive_cases {vs : List HView} {i : Nat} {h : HView} {k : Kind} (hi : vs[i]? = some h)
+    {j : Nat} {d : HView} (hj : ((vs.set i (derivedParent h k)) ++ [derivedChild h i k])[j]? = some d) :
+    (j = vs.length ∧ d = derivedChild h i k) ∨
+    (∃ d0, vs[j]? = some d0 ∧ d.live = d0.live ∧ d.parent = d0.parent ∧ d.anc = d0.anc ∧ d.kind = d0.kind ∧
+      (j ≠ i → d = d0) ∧ (j = i → d = derivedParent h k ∧ d0 = h)) := by
+  rcases getElem?_append_cases hj with hj' | ⟨hge, hj'⟩
+  · right
+    rcases getElem?_set_cases hj' with ⟨rfl, rfl⟩ | ⟨hne, hj''⟩
+    · obtain ⟨a, b, c, e⟩ := derivedParent_core h k
+      exact ⟨h, hi, a, b, c, e, fun hh => absurd rfl hh, fun _ => ⟨rfl, rfl⟩⟩
+    · exact ⟨d, hj'', rfl, rfl, rfl, rfl, fun _ => rfl, fun e => absurd e hne⟩
+  · left
+    simp only [List.length_set] at hge hj'
+    have hlt : j - vs.length < 1 := by
+      have := lt_of_getElem?_some hj'
+      simpa using this
+    have hz : j - vs.length = 0 := by omega
+    rw [hz] at hj'
+    simp at hj'
+    exact ⟨by omega, hj'.symm⟩
+
+theorem derive_conv {vs : List HView} {i : Nat} {h : HView} {k : Kind} (hi : vs[i]? = some h)
+    {q : Nat} {qh : HView} (hq : vs[q]? = some qh) :
+    ∃ qh', ((vs.set i (derivedParent h k)) ++ [derivedChild h i k])[q]? = some qh' ∧ qh'.anc = qh.anc ∧
+      qh'.live = qh.live ∧ (q ≠ i → qh' = qh) ∧ (q = i → qh' = derivedParent h k) := by
+  by_cases hqi : q = i
+  · subst hqi
+    rw [hi] at hq; cases hq
+    obtain ⟨a, _, c, _⟩ := derivedParent_core h k
+    exact ⟨_, getElem?_append_of_some (getElem?_set_self' hi), c, a, fun e => absurd rfl e, fun _ => rfl⟩
+  · exact ⟨qh, getElem?_append_of_some (getElem?_set_ne' hqi hq), rfl, rfl, fun _ => rfl, fun e => absurd e hqi⟩
+
+theorem VInv.derive {vs : List HView} {i : Nat} {h : HView} (k : Kind) (inv : VInv vs) (hi : vs[i]? = some h)
+    (hf : h.childFlag = false) (hc : ¬ h.borrowCount > 0) :
+    VInv ((vs.set i (derivedParent h k)) ++ [derivedChild h i k]) := by
+  have nochild := inv.no_live_child hi hf hc
+  have hcnt := inv.cnt i h hi
+  constructor
+  · intro j d hj hp
+    rcases derive_cases hi hj with ⟨_, rfl⟩ | ⟨d0, a, _, b, c, _⟩
+    · simp [derivedChild] at hp
+    · rw [c]; exact inv.rootAnc j d0 a (b ▸ hp)
+  · intro j d hj p hp
+    rcases derive_cases hi hj with ⟨_, rfl⟩ | ⟨d0, a, _, b, c, _⟩
+    · simp only [derivedChild, Option.some.injEq] at hp
+      subst hp
+      obtain ⟨qh', g1, g2, _, _, g5⟩ := derive_conv (k := k) hi hi
+      exact ⟨qh', g1, by rw [g5 rfl, (derivedParent_core h k).2.2.1]; rfl⟩
+    · obtain ⟨ph, h1, h2⟩ := inv.ancOk j d0 a p (b ▸ hp)
+      obtain ⟨qh', g1, g2, _⟩ := derive_conv (k := k) hi h1
+      exact ⟨qh', g1, by rw [c, h2, g2]⟩
+  · intro j d hj hl p hp
+    rcases derive_cases hi hj with ⟨_, rfl⟩ | ⟨d0, a, lv, b, _, e, _⟩
+    · simp only [derivedChild, Option.some.injEq] at hp
+      subst hp
+      obtain ⟨qh', g1, _, _, _, g5⟩ := derive_conv (k := k) hi hi
+      refine ⟨qh', g1, ?_⟩
+      rw [g5 rfl]
+      unfold FlagSet
+      cases k
+      · exact ⟨fun _ => rfl, fun hk => by simp [derivedChild] at hk⟩
+      · refine ⟨fun hk => by simp [derivedChild] at hk, fun _ => ?_⟩
+        show h.borrowCount + 1 > 0
+        omega
+    · have l0 : d0.live = true := lv ▸ hl
+      have hpi : p ≠ i := fun e => nochild j d0 a l0 (e ▸ b ▸ hp)
+      obtain ⟨ph, h1, h2⟩ := inv.flagOk j d0 a l0 p (b ▸ hp)
+      obtain ⟨qh', g1, _, _, g4, _⟩ := derive_conv (k := k) hi h1
+      rw [g4 hpi] at g1
+      exact ⟨ph, g1, ⟨fun hk => h2.1 (e ▸ hk), fun hk => h2.2 (e ▸ hk)⟩⟩
+  · intro j1 j2 d1 d2 p h1 h2 l1 l2 p1 p2
+    rcases derive_cases hi h1 with ⟨e1, rfl⟩ | ⟨d10, a1, lv1, b1, _⟩
+    · rcases derive_cases hi h2 with ⟨e2, rfl⟩ | ⟨d20, a2, lv2, b2, _⟩
+      · rw [e1, e2]
+      · simp only [derivedChild, Option.some.injEq] at p1
+        subst p1
+        exact absurd (b2 ▸ p2) (nochild j2 d20 a2 (lv2 ▸ l2))
+    · rcases derive_cases hi h2 with ⟨e2, rfl⟩ | ⟨d20, a2, lv2, b2, _⟩
+      · simp only [derivedChild, Option.some.injEq] at p2
+        subst p2
+        exact absurd (b1 ▸ p1) (nochild j1 d10 a1 (lv1 ▸ l1))
+      · exact inv.uniq j1 j2 d10 d20 p a1 a2 (lv1 ▸ l1) (lv2 ▸ l2) (b1 ▸ p1) (b2 ▸ p2)
+  · intro j d hj
+    rcases derive_cases hi hj with ⟨_, rfl⟩ | ⟨d0, a, _, _, _, _, g1, g2⟩
+    · exact Int.le_refl 0
+    · by_cases hji : j = i
+      · obtain ⟨e1, e2⟩ := g2 hji
+        rw [e1]
+        cases k
+        · exact hcnt
+        · show 0 ≤ h.borrowCount + 1
+          omega
+      · rw [g1 hji]; exact inv.cnt j d0 a
+
+theorem PLive.derive {vs : List HView} {i : Nat} {h : HView} (k : Kind) (pl : PLive vs) (hi : vs[i]? = some h)
+    (hl : h.live = true) : PLive ((vs.set i (derivedParent h k)) ++ [derivedChild h i k]) := by
+  intro j d hj hlv p hp
+  rcases derive_cases hi hj with ⟨_, rfl⟩ | ⟨d0, a, lv, b, _⟩
+  · simp only [derivedChild, Option.some.injEq] at hp
+    subst hp
+    obtain ⟨qh', g1, _, g3, _⟩ := derive_conv (k := k) hi hi
+    exact ⟨qh', g1, by rw [g3]; exact hl⟩
+  · obtain ⟨ph, h1, h2⟩ := pl j d0 a (lv ▸ hlv) p (b ▸ hp)
+    obtain ⟨qh', g1, _, g3, _⟩ := derive_conv (k := k) hi h1
+    exact ⟨qh', g1, by rw [g3]; exact h2⟩
+
+
+/-! ## the invariant on states -/
+
+structure InvC (s : LState) : Prop where
+  v : VInv s.views
+  plive : s.orphaned = false → PLive s.views
+  direct : s.aliasDirect = false
+  alias : s.orphaned = false → s.aliasViol = false
+
+theorem invC_init : InvC {} := by
+  refine ⟨⟨?_, ?_, ?_, ?_, ?_⟩, ?_, rfl, fun _ => rfl⟩ <;> intros <;> simp_all [LState.views, PLive]
+
+theorem views_get {s : LState} {i : Nat} {h : Handle} (hi : s.handles[i]? = some h) : s.views[i]? = some h.view := by
+  simp [LState.views, List.getElem?_map, hi]
+
+theorem mutCheck_clear {s : LState} {h : Handle} (hc : mutCheck s h = .ok ()) :
+    h.view.childFlag = false ∧ ¬ h.view.borrowCount > 0 := by
+  unfold mutCheck at hc
+  split at hc
+  · simp at hc
+  · split at hc
+    · simp at hc
+    · rename_i hb
+      simp only [Bool.or_eq_true, decide_eq_true_eq, not_or] at hb
+      exact ⟨by simpa [Handle.view] using hb.2, by simpa [Handle.view] using hb.1⟩
+
+theorem live_of_contains {h : Handle} {c : Nat} (hc : ¬ (!h.copies.contains c) = true) : h.live = true := by
+  simp only [Bool.not_eq_true', Bool.not_eq_false'] at hc
+  have : c ∈ h.copies := by simpa using hc
+  cases hcs : h.copies with
+  | nil => rw [hcs] at this; cases this
+  | cons a as => simp [Handle.live, hcs]
+
+/-- a state that differs from `s` in nothing the invariant looks at -/
+theorem InvC.transfer {s s' : LState} (inv : InvC s) (hv : s'.views = s.views) (ho : s'.orphaned = s.orphaned)
+    (hd : s'.aliasDirect = false) (ha : s.orphaned = false → s'.aliasViol = false) : InvC s' :=
+  ⟨hv ▸ inv.v, fun h => hv ▸ inv.plive (ho ▸ h), hd, fun h => ha (ho ▸ h)⟩
+
+theorem noteAccess_direct {s : LState} (inv : InvC s) {i : Nat} {h : Handle} (m : Bool)
+    (hi : s.handles[i]? = some h) (hc : m = true → mutCheck s h = .ok ()) :
+    (s.noteAccess i h m).aliasDirect = false := by
+  simp only [LState.noteAccess, inv.direct, Bool.false_or]
+  cases m with
+  | false => rfl
+  | true =>
+    obtain ⟨a, b⟩ := mutCheck_clear (hc rfl)
+    rw [hasLiveChild_views, inv.v.vLiveChild_clear (views_get hi) a b]; rfl
+
+theorem noteAccess_alias {s : LState} (inv : InvC s) {i : Nat} {h : Handle} (m : Bool)
+    (hi : s.handles[i]? = some h) (hc : m = true → mutCheck s h = .ok ()) (ho : s.orphaned = false) :
+    (s.noteAccess i h m).aliasViol = false := by
+  simp only [LState.noteAccess, inv.alias ho, Bool.false_or]
+  cases m with
+  | false => rfl
+  | true =>
+    obtain ⟨a, b⟩ := mutCheck_clear (hc rfl)
+    rw [hasLiveDesc_views, inv.v.vLiveDesc_clear (inv.plive ho) (views_get hi) a b]; rfl
+
+theorem views_set_same {s : LState} {i : Nat} {h x : Handle} (hi : s.handles[i]? = some h)
+    (hx : x.view = h.view) : (s.handles.set i x).map Handle.view = s.views := by
+  rw [List.map_set, hx]
+  exact set_same (views_get hi)
+
+theorem lstep_invC (pol : Policy) {s : LState} (inv : InvC s) (op : Op) : InvC (lstep pol s op).1 := by
+  cases op with
+  | lend kinds =>
+    simp only [lstep]
+    split
+    · exact inv
+    · have hroots : ∀ r ∈ (mkRoots s.nextCell s.nextCall s.nextObj kinds).map Handle.view, isRoot r := by
+        intro r hr
+        obtain ⟨h, hm, rfl⟩ := List.mem_map.mp hr
+        have := mem_mkRoots hm
+        exact ⟨this.2.2.2.1, this.2.2.2.2.1, this.2.2.2.2.2.2⟩
+      refine ⟨?_, ?_, inv.direct, inv.alias⟩
+      · show VInv ((s.handles ++ mkRoots s.nextCell s.nextCall s.nextObj kinds).map Handle.view)
+        rw [List.map_append]
+        exact inv.v.append_roots hroots
+      · intro ho
+        show PLive ((s.handles ++ mkRoots s.nextCell s.nextCall s.nextObj kinds).map Handle.view)
+        rw [List.map_append]
+        exact (inv.plive ho).append_roots hroots
+  | endCall =>
+    simp only [lstep]
+    split
+    · exact inv
+    · exact inv.transfer rfl rfl inv.direct inv.alias
+  | copy i c =>
+    simp only [lstep]
+    split
+    · exact inv
+    · rename_i h hi
+      split
+      · exact inv
+      · rename_i hc
+        refine inv.transfer ?_ rfl inv.direct inv.alias
+        refine views_set_same hi ?_
+        have := live_of_contains hc
+        simp only [Handle.view, Handle.live] at this ⊢
+        simp [this]
+  | drop i c =>
+    simp only [lstep]
+    split
+    · exact inv
+    · rename_i h hi
+      split
+      · exact inv
+      · rename_i hc
+        have hl := live_of_contains hc
+        split
+        · rename_i hemp
+          -- the last copy goes away
+          have hd1 : ({ h with copies := h.copies.erase c } : Handle).view.live = false := by
+            simp only [Handle.view, Handle.live]
+            simpa using hemp
+          have kr := killRel (views_get hi) ({ h with copies := h.copies.erase c } : Handle).view hd1 rfl rfl rfl rfl rfl
+          have hviews : (release (s.handles.set i { h with copies := h.copies.erase c })
+              { h with copies := h.copies.erase c }).map Handle.view =
+              vrelease (s.views.set i ({ h with copies := h.copies.erase c } : Handle).view)
+                ({ h with copies := h.copies.erase c } : Handle).view := by
+            rw [release_views, List.map_set]; rfl
+          refine ⟨?_, ?_, inv.direct, ?_⟩
+          · have := inv.v.kill (views_get hi) (by simpa [Handle.view] using hl) kr
+            rw [← hviews] at this
+            exact this
+          · intro ho
+            have ho' : (s.orphaned || s.hasLiveChild i) = false := ho
+            simp only [Bool.or_eq_false_iff] at ho'
+            have := (inv.plive ho'.1).kill (by rw [← hasLiveChild_views]; exact ho'.2) kr
+            rw [← hviews] at this
+            exact this
+          · intro ho
+            have ho' : (s.orphaned || s.hasLiveChild i) = false := ho
+            simp only [Bool.or_eq_false_iff] at ho'
+            exact inv.alias ho'.1
+        · rename_i hne
+          refine inv.transfer ?_ rfl inv.direct inv.alias
+          refine views_set_same hi ?_
+          simp only [Handle.view, Handle.live] at hl ⊢
+          simp only [Bool.not_eq_true] at hne
+          simp [hl, hne]
+  | get i c =>
+    simp only [lstep]
+    split
+    · exact inv
+    · rename_i h hi
+      split
+      · exact inv
+      · split
+        · exact inv
+        · rename_i hc
+          exact inv.transfer rfl rfl (noteAccess_direct inv true hi (fun _ => hc))
+            (noteAccess_alias inv true hi (fun _ => hc))
+  | getro i c =>
+    simp only [lstep]
+    split
+    · exact inv
+    · rename_i h hi
+      split
+      · exact inv
+      · split
+        · exact inv
+        · exact inv.transfer rfl rfl (noteAccess_direct inv false hi (fun e => by cases e))
+            (noteAccess_alias inv false hi (fun e => by cases e))
+  | set i c v =>
+    simp only [lstep]
+    split
+    · exact inv
+    · rename_i h hi
+      split
+      · exact inv
+      · split
+        · exact inv
+        · rename_i hc
+          exact inv.transfer rfl rfl (noteAccess_direct inv true hi (fun _ => hc))
+            (noteAccess_alias inv true hi (fun _ => hc))
+  | derive i c k =>
+    simp only [lstep]
+    split
+    · exact inv
+    · rename_i h hi
+      split
+      · exact inv
+      · rename_i hcc
+        split
+        · exact inv
+        · split
+          · exact inv
+          · rename_i hc
+            obtain ⟨a, b⟩ := mutCheck_clear hc
+            have hl := live_of_contains hcc
+            have hviews : ((s.handles.set i (match k with
+                | .rw => { h with childFlag := true }
+                | .ro => { h with borrowCount := h.borrowCount + 1 })) ++
+                [({ cell := s.nextCell, call := h.call, kind := k, parent := some i, obj := h.obj,
+                    depth := h.depth + 1, anc := h.anc ++ [i], childFlag := false, borrowCount := 0,
+                    copies := [0], nextCopy := 1 } : Handle)]).map Handle.view =
+                (s.views.set i (derivedParent h.view k)) ++ [derivedChild h.view i k] := by
+              rw [List.map_append, List.map_set]
+              cases k <;> rfl
+            refine ⟨?_, ?_, noteAccess_direct inv true hi (fun _ => hc), noteAccess_alias inv true hi (fun _ => hc)⟩
+            · have := inv.v.derive k (views_get hi) a b
+              rw [← hviews] at this
+              exact this
+            · intro ho
+              have := (inv.plive ho).derive k (views_get hi) (by simpa [Handle.view] using hl)
+              rw [← hviews] at this
+              exact this
+
+theorem lrun_invC (pol : Policy) (ops : List Op) : ∀ {s : LState}, InvC s → InvC (lrun pol s ops) := by
+  induction ops with
+  | nil => intro s h; exact h
+  | cons o rest ih => intro s h; exact ih (lstep_invC pol h o)
+
 end SteelVerif.C20
